@@ -13,8 +13,12 @@ set_option linter.unusedVariables false
 namespace PEval.MatchKernels
 open PEval PEval.DT
 
-/-- atoms a skeleton may ask again further down a path (`gt.none`, `gt.fp`, `matchable`) -/
-def sticky : List Nat := [0, 1, 2]
+/-- atoms whose decisions the checker records: those a skeleton may ask again further down a path (`gt.none`, `gt.fp`,
+`matchable`) and those the clauses of `forbIoU` speak about (`mode.is(IOU2D)`, `mode.is(IOU3D)` = Boolean atoms 6, 7;
+`cmp(0|thr)`, `cmp(1|thr)`, `cmp(0|thr[gt])`, `cmp(1|thr[gt])` = order atoms 4, 5, 10, 11), so that a leaf below them is
+recognised as sitting under a forbidden conjunction also when code and skeleton asked the atom at the same moment.
+(One numbering serves both kinds of atoms; recording more than needed is always sound.) -/
+def sticky : List Nat := [0, 1, 2, 4, 5, 6, 7, 10, 11]
 
 /-- the per-run check of one table: the complete agreement checker accepts (an untranslatable function has no table) -/
 def tableOk (forb : List (List Lit)) (t : Option DTree) (m : DTree) : Bool :=
@@ -74,6 +78,51 @@ theorem valMatchableAP_consistent (p : AP.Policy) (e g : AP.Label) :
   · cases h : (g == AP.fpLabel) <;> simp_all [AP.fpLabel, AP.unknownLabel]
   · simp; intro h1 h2; rw [h1, h2]
   · simp; intro h1 h2; rw [h1, h2]
+
+/-! ## valuations of in-quantifier inputs avoid `forbIoU` (thresholds on the mode's scale) -/
+
+theorem cmpR_ne_gt {a b : Rat} (h : a ≤ b) : cmpR a b ≠ .gt := by
+  unfold cmpR
+  by_cases h1 : a < b
+  · simp [h1]
+  · by_cases h2 : a = b
+    · simp [h2]
+    · exfalso; grind
+
+theorem cmpR_ne_lt {a b : Rat} (h : b ≤ a) : cmpR a b ≠ .lt := by
+  unfold cmpR
+  have h1 : ¬ a < b := by grind
+  by_cases h2 : a = b <;> simp [h1, h2]
+
+theorem forbIoU_consistent (v : Val)
+    (h : ∀ k, k = 2 ∨ k = 3 → v.b (aMode k) = true →
+      v.c (cThr + 4) ≠ .gt ∧ v.c (cThr + 5) ≠ .lt ∧ v.c (cRadius + 4) ≠ .gt ∧ v.c (cRadius + 5) ≠ .lt) :
+    consistent forbIoU v = true := by
+  have h2 := h 2 (Or.inl rfl)
+  have h3 := h 3 (Or.inr rfl)
+  simp only [consistent, forbIoU, List.all_cons, List.all_nil, Lit.holds, Bool.and_true]
+  generalize v.b (aMode 2) = m2 at *
+  generalize v.b (aMode 3) = m3 at *
+  generalize v.c (cThr + 4) = a at *
+  generalize v.c (cThr + 5) = b at *
+  generalize v.c (cRadius + 4) = c at *
+  generalize v.c (cRadius + 5) = d at *
+  cases m2 <;> cases m3 <;> simp_all
+
+/-- the valuation of `is_better_than(t)` avoids `forbIoU` when `t` is on the mode's scale -/
+theorem valBetter_consistent (m : AP.Mode) (x : Option Rat) (t : Rat) (hv : AP.thrValid m t = true) :
+    consistent forbIoU (valBetter m x t) = true := by
+  apply forbIoU_consistent
+  intro k hk hm
+  have h4 : (valBetter m x t).c (cThr + 4) = cmpR 0 t := by cases m <;> rfl
+  have h5 : (valBetter m x t).c (cThr + 5) = cmpR 1 t := by cases m <;> rfl
+  have h10 : (valBetter m x t).c (cRadius + 4) = .eq := by cases m <;> rfl
+  have h11 : (valBetter m x t).c (cRadius + 5) = .eq := by cases m <;> rfl
+  rw [h4, h5, h10, h11]
+  have hd : m.isDistance = false := by
+    rcases hk with rfl | rfl <;> cases m <;> first | rfl | exact absurd hm Bool.false_ne_true
+  simp only [AP.thrValid, hd, Bool.false_eq_true, if_false, Bool.and_eq_true, decide_eq_true_eq] at hv
+  exact ⟨cmpR_ne_gt hv.1, cmpR_ne_lt hv.2, by decide, by decide⟩
 
 theorem eval_ite (c : Prop) [Decidable c] (a b : DTree) (v : Val) :
     eval (if c then a else b) v = if c then eval a v else eval b v := by
@@ -431,5 +480,65 @@ theorem cell_bridge (c : Matching.Cfg) (e g : Matching.Obj) (v : Rat) (rd : Opti
         · simp [hb, ofCell, bind, Except.bind, pure, Except.pure, Matching.Cell.nan, eval_leaf]
         · simp only [if_true, eval_askB, eval_leaf, h3]
           cases Matching.isMatchable c.policy e g <;> simp [hb, ofCell, bind, Except.bind, pure, Except.pure]
+
+/-! ## the valuations of the other in-quantifier inputs avoid `forbIoU` -/
+
+theorem thrOk_none (m : AP.Mode) : thrOk m none := fun _ h => by cases h
+theorem thrOk_some {m : AP.Mode} {t : Rat} (h : AP.thrValid m t = true) : thrOk m (some t) :=
+  fun t' h' => by cases h'; exact h
+theorem thrOk_distance {m : AP.Mode} (hm : m.isDistance = true) (thr : Option Rat) : thrOk m thr :=
+  fun t _ => by simp [AP.thrValid, hm]
+
+/-- `is_result_correct(m, thr)` / `get_status(m, thr)`: no threshold, or one on the mode's scale -/
+theorem valAP_consistent (m : AP.Mode) (thr : Option Rat) (r : AP.Res) (hv : thrOk m thr) :
+    consistent forbIoU (valAP m thr r) = true := by
+  apply forbIoU_consistent
+  intro k hk hm
+  have h4 : (valAP m thr r).c (cThr + 4) = cmpR 0 (thr.getD 0) := by cases m <;> rfl
+  have h5 : (valAP m thr r).c (cThr + 5) = cmpR 1 (thr.getD 0) := by cases m <;> rfl
+  have h10 : (valAP m thr r).c (cRadius + 4) = .eq := by cases m <;> rfl
+  have h11 : (valAP m thr r).c (cRadius + 5) = .eq := by cases m <;> rfl
+  rw [h4, h5, h10, h11]
+  have hd : m.isDistance = false := by
+    have := valAP_mode m thr r k (by rcases hk with rfl | rfl <;> decide)
+    rw [hm] at this
+    rcases hk with rfl | rfl <;> cases m <;> first | rfl | exact absurd this (by decide)
+  have hr : 0 ≤ thr.getD 0 ∧ thr.getD 0 ≤ 1 := by
+    cases thr with
+    | none => exact ⟨by decide, by decide⟩
+    | some t =>
+      have := hv t rfl
+      simpa [AP.thrValid, hd] using this
+  exact ⟨cmpR_ne_gt hr.1, cmpR_ne_lt hr.2, by decide, by decide⟩
+
+/-- the pass/fail model's results (plane distance): every threshold is on the scale -/
+theorem valPF_consistent (r : PassFail.Res) : consistent forbIoU (valPF r) = true := by
+  apply forbIoU_consistent
+  intro k hk hm
+  have := valPF_mode r k (by rcases hk with rfl | rfl <;> decide)
+  rw [hm] at this
+  rcases hk with rfl | rfl <;> exact absurd this (by decide)
+
+/-- one score-table cell: no radius for the ground truth's label, or one on the mode's scale -/
+theorem valCell_consistent (c : Matching.Cfg) (e g : Matching.Obj) (v : Rat) (rd : Option Rat) (hv : thrOk (toAP c.mode) rd) :
+    consistent forbIoU (valCell c e g v rd) = true := by
+  apply forbIoU_consistent
+  intro k hk hm
+  have h4 : (valCell c e g v rd).c (cThr + 4) = .eq := by cases hm' : c.mode <;> simp [valCell, valCmp, modeIdxM, hm', toAP, modeIdx, cRadius, cThr]
+  have h5 : (valCell c e g v rd).c (cThr + 5) = .eq := by cases hm' : c.mode <;> simp [valCell, valCmp, modeIdxM, hm', toAP, modeIdx, cRadius, cThr]
+  have h10 : (valCell c e g v rd).c (cRadius + 4) = cmpR 0 (rd.getD 0) := by cases hm' : c.mode <;> simp [valCell, valCmp, modeIdxM, hm', toAP, modeIdx, cRadius]
+  have h11 : (valCell c e g v rd).c (cRadius + 5) = cmpR 1 (rd.getD 0) := by cases hm' : c.mode <;> simp [valCell, valCmp, modeIdxM, hm', toAP, modeIdx, cRadius]
+  rw [h4, h5, h10, h11]
+  have hd : (toAP c.mode).isDistance = false := by
+    have := valCell_mode c e g v rd k (by rcases hk with rfl | rfl <;> decide)
+    rw [hm] at this
+    rcases hk with rfl | rfl <;> cases hm' : c.mode <;> rw [hm'] at this <;> first | rfl | exact absurd this (by decide)
+  have hr : 0 ≤ rd.getD 0 ∧ rd.getD 0 ≤ 1 := by
+    cases rd with
+    | none => exact ⟨by decide, by decide⟩
+    | some t =>
+      have := hv t rfl
+      simpa [AP.thrValid, hd] using this
+  exact ⟨by decide, by decide, cmpR_ne_gt hr.1, cmpR_ne_lt hr.2⟩
 
 end PEval.MatchKernels
